@@ -27,6 +27,7 @@ THEOREMS = [
     "Nix.C19.C19_stamp_sites",
     "Nix.C19.C19_foreign_calls",
     "Nix.C19.C19_no_foreign_elsewhere",
+    "Nix.C19.C19_delegates_are_entity_members",
     "Nix.C19.C19_created_fixed",
     "Nix.C19.C19_monotone",
     "Nix.C19.C19_monotone_from_open",
